@@ -121,6 +121,12 @@ theorem gen_dispatch (n : Nat) (dxin efl wvl dxout s : R) (hn : (n : R) ≠ 0) (
   · simp only [alphaOf_eq, ufsQ]; field_simp
   all_goals simp only [ffsShift0, ffsShift1, ufsShift0, ufsShift1]
 
+/-- purity (structural): no entry point of the three routes / of free space writes to its array argument — no augmented
+assignment or subscript store on the parameter while it still names the caller's array, no `out=<param>`, no
+`overwrite_x=True` handed to the FFT library (the model routes are pure functions of their input) -/
+theorem gen_inputs_not_written :
+    fttoolsEntryPointsDoNotWriteInputs = true ∧ propagationEntryPointsDoNotWriteInputs = true := by decide
+
 /-! ## matrix DFT = unit phase × textbook sum -/
 
 /-- the oracle of the correspondence is literally the double sum of the property statement:
